@@ -728,6 +728,13 @@ func (x *Exec) libInvoke(s *State, site ssa.Instruction, full string, recv Val, 
 			id = iv.Opaque
 		}
 		return &IfaceV{Nil: TFalse, Opaque: UF("uf_conn_remoteaddr", SInt, id)}, true
+	case "fs.FileInfo.Size", "os.FileInfo.Size":
+		x.used(full + ": size recorded by Stat (uf_fileinfo_size)")
+		iv, _ := recv.(*IfaceV)
+		if iv != nil && iv.Opaque != nil {
+			return UF("uf_fileinfo_size", SInt, iv.Opaque), true
+		}
+		return x.freshInt(s, site, "size"), true
 	case "error.Error":
 		x.used(full)
 		return x.freshStr(s, site, "errstr"), true
